@@ -65,6 +65,7 @@ def _split(p):
     for x in p:
         if x == '*': continue
         if isinstance(x, dict) and ('dc' in x or 'f' in x): out.append(x)
+        elif isinstance(x, dict) and 'cix' in x and not x.get('fe'): out.append({'f': str(x['cix']), 'of': 'array'})      # `[a, b]` pattern: constant index = component of the array
         else: return None
     return out
 
@@ -304,6 +305,28 @@ class Opener(NZ.Normalizer):
 
     def _normalize(self, d):
         return self.open(super()._normalize(self._strip_views(d)))
+
+    def _inline_helpers(self, rw):
+        super()._inline_helpers(rw)
+        forwarded = False
+        # an adapted iterator handed to an inlined helper (`helper(xs.iter().map(f))` + `for x in param`) reaches into_iter through the
+        # parameter assignment; normalize only looks directly behind into_iter: forward plain moves of single-definition locals
+        for b in rw.blocks:
+            t = b['term']
+            if b['cleanup'] or t['k'] != 'call' or (t.get('ri') or {}).get('item') != 'into_iter' or (t.get('ri') or {}).get('trait') != 'std::iter::IntoIterator': continue
+            for _ in range(6):
+                a = t['args'][0]
+                if a['k'] not in ('copy', 'move') or a['pl']['p']: break
+                d = rw.single_def(a['pl']['l'])
+                if d is None or d[0] != 'stmt' or d[2]['rv']['k'] != 'use': break
+                o = d[2]['rv']['ops'][0]
+                if o['k'] != 'move' or o['pl']['p']: break
+                if rw.single_def(o['pl']['l']) is None: break
+                t['args'][0] = {'k': 'move', 'pl': {'l': o['pl']['l'], 'p': []}}; rw.changed = True; forwarded = True
+        if forwarded:
+            for b in rw.blocks:            # loops that the shared normal form has already looked at (and left) are looked at again
+                t = b['term']
+                if t['k'] == 'call' and t.get('desugared') is True and (t.get('ri') or {}).get('item') == 'next': t.pop('desugared')
 
     def _strip_views(self, d):
         """`it.cloned()` / `it.copied()` yield the same elements (ITERISH); taken out so that a closure chain below them
@@ -777,11 +800,16 @@ def decide(ctx, rule, template, body, problems, site=None):
 ITERISH = re.compile(r'::(into_iter|iter|deref|as_ref|as_slice|borrow|by_ref|copied|cloned)$')
 
 
+# a single value viewed as a one-element sequence: the loop over it runs exactly once and its item is the value
+ONE_ELEMENT = re.compile(r'(^|::)slice::from_ref$|(^|::)iter::once$|(^|::)array::from_ref$')
+
+
 def components(n):
     """structure of an iterator expression:
          ('src', expr)            the elements of a place, through ITERISH views only
          ('zip', [components])    itertools::multizip((a, b, ..)) ≡ izip!(a, b, ..) ≡ a.zip(b) (nested: ((a, b), c))
          ('index',)               the counter of enumerate()
+         ('one', expr)            slice::from_ref(&x) / iter::once(x) / [x]: exactly one element, x
          ('take', comp, n)        it.take(n): the same elements, cut at n (leaf ('bound', n) for the validity check)
          ('range', lo, hi)        the counter of `lo..hi` (an index loop; see Kernel.msg_path: list[k] is the element of list in that loop)
          ('vec', local, push)     (added by Kernel.comp_of) the elements of a local Vec that is filled by one push per iteration of another loop
@@ -793,10 +821,12 @@ def components(n):
             if n[1] == 'zip' and 'Iterator' in n[2] and len(n[3]) == 2: return ('zip', [components(n[3][0]), components(n[3][1])])
             if n[1] == 'enumerate' and 'Iterator' in n[2] and n[3]: return ('zip', [('index',), components(n[3][0])])
             if n[1] == 'take' and 'Iterator' in n[2] and len(n[3]) == 2: return ('take', components(n[3][0]), n[3][1])      # valid only up to a length of the message's own lists (loop_problems)
+            if ONE_ELEMENT.search(nm) and n[3]: return ('one', n[3][0])
             if ITERISH.search(nm) and n[3]: n = n[3][0]; continue
             return ('other', n)
         if n[0] == 'place' or is_item(n): return ('src', n)
         if n[0] == 'agg' and n[1].endswith('ops::Range') and len(n[2]) == 2: return ('range', n[2][0], n[2][1])
+        if n[0] == 'agg' and n[1] == 'array' and len(n[2]) == 1: return ('one', n[2][0])
         return ('other', n)
 
 
@@ -871,7 +901,7 @@ class Kernel:
         fsrc = [self.msg_path(l[1]) for l in comp_leaves(self.comp_of(flo)) if l[0] == 'src']
         for l in leaves:
             if l[0] == 'src' and (self.msg_path(l[1]) is None or self.msg_path(l[1]) not in fsrc): return nb
-            if l[0] not in ('src', 'vec', 'index', 'bound'): return nb
+            if l[0] not in ('src', 'vec', 'index', 'bound', 'one'): return nb
         return self.canon(fill, depth + 1)
 
     def vec_problems(self, leaf):
@@ -921,6 +951,9 @@ class Kernel:
         if r is not None:
             c, fs, nb = r
             if c[0] == 'vec': return self.msg_path(project(self.vx.op(c[2].args[1]), fs), depth + 1)
+            if c[0] == 'one':
+                base = self.msg_path(project(c[1], fs), depth + 1)
+                return None if base is None else (base[0], base[1] + [nb])
             if c[0] != 'src': return None
             base = self.msg_path(c[1], depth + 1)
             if base is None: return None
@@ -968,7 +1001,9 @@ class Kernel:
         for leaf in comp_leaves(self.comp_of(lo)):
             k = leaf[0]
             if k == 'index': continue
-            if k == 'src':
+            if k == 'one':
+                if self.msg_path(leaf[1]) is None: out.append('a loop runs over a single value that is not read from the message (%s)' % T.expr_str(leaf[1]))
+            elif k == 'src':
                 if self.msg_path(leaf[1]) is None: out.append('a loop iterates a derived collection instead of the message\'s own list (%s)' % T.expr_str(leaf[1]))
             elif k == 'range':
                 # index loop: from 0 to the length of (the common prefix of) the kernel's own lists
@@ -1150,7 +1185,8 @@ def kernel_rules(ctx, short):
     recs = [(x, recurrence(x, vx)) for x in leaves]
     rec = [r for x, r in recs if r is not None][0] if len([1 for x, r in recs if r is not None]) == 1 else None
     if rec is not None:
-        rec = (rec[0], rec[1] + [(x, exit_bb) for x, r in recs if r is None], rec[2])
+        # several definitions of the accumulator before the loop are alternatives (the last one on a path wins), not summands
+        rec = (rec[0], [(start_value(rec[0], rec[1]), rec[1][0][1])] + [(x, exit_bb) for x, r in recs if r is None], rec[2])
     else:
         un = unopened_consumers(value)
         if un and not any(r is not None for x, r in recs):
@@ -1315,6 +1351,12 @@ def weak_kernel(ctx, K, short, spec, vop, sop, consumer, hidden):
         ctx.check(ss.has_call(r'v1::Linear as evaluate::Evaluate>::evaluate'), R + '.used/Quadratic/includes-linear-ids', 'T-CARRY', fn, 'ids of the linear part are not reported', body.site())
 
 
+def start_value(l, alts):
+    """the value an accumulator has before its loop: its only definition outside the updates, or the phi of several"""
+    if len(alts) == 1: return alts[0][0]
+    return ('phi', l, [x for x, b in alts], [b for x, b in alts])
+
+
 def shortcut_problems(K, pair, guards, term_loop, rec, main_sop):
     """why the early exit `pair` (taken when a list is empty) does NOT return what the main exit returns after zero iterations"""
     body = K.body; vx = K.vx; e, vop, sop = pair; why = []
@@ -1328,7 +1370,7 @@ def shortcut_problems(K, pair, guards, term_loop, rec, main_sop):
         for x in nodes:
             for leaf in T.flatten(x, 'Add'):
                 r = recurrence(leaf, vx)
-                if r is not None and r[0] == acc_l: out += summands([i for i, bi in r[1]])       # the accumulator before the loop = its start value
+                if r is not None and r[0] == acc_l: out += summands([start_value(acc_l, r[1])])       # the accumulator before the loop = its start value
                 elif peel(leaf) != ('const', '0f64'): out.append(repr(peel(leaf)))
         return sorted(out)
     if summands([K.inline_vecs(vx.op(vop))]) != summands([x for x, bi in inits]):
@@ -1346,7 +1388,7 @@ def init_check(ctx, K, short, kind, inits, Lp):
     """inits: the summands the sum starts from (definitions of the accumulator outside the loop + summands added at the exit)"""
     R = 'C01'; body = K.body; fn = body.name
     descr = [T.expr_str(peel(x)) for x, bi in inits]
-    outside = all(bi not in Lp[4] for x, bi in inits)
+    outside = all(b not in Lp[4] for x, bi in inits for n, b in flat_alts(x, bi))
     nz = [(peel(x), bi) for x, bi in inits if peel(x) != ('const', '0f64')]          # 0.0 + x ≡ x
     init_ok = False
     if kind == 'constant':
@@ -1355,24 +1397,28 @@ def init_check(ctx, K, short, kind, inits, Lp):
         init_ok = not nz and bool(inits)
     elif kind == 'linear-part':
         # (sum, ids) = match &self.linear { Some(l) => l.evaluate(state)?, None => (0.0, {}) }   (if let / match / as_ref() alike)
-        entries = []
-        if len(nz) == 1:
-            n, bi = nz[0]
-            entries = list(zip(n[2], n[3])) if n[0] == 'phi' else [(n, bi)]
+        # ... or a default `(0.0, {})` overwritten inside `if let Some(l) = ..`: decided on reaching definitions - which definition of the start
+        # value is the one in force at the loop when control comes through the None / the Some side of the test on self.linear
+        entries = list(flat_alts(nz[0][0], nz[0][1])) if len(nz) == 1 else []
         tests = option_field_tests(body, 'v1::Quadratic', 'linear')
+        H = Lp[1]
+        def in_force(b, t, others):
+            """the definition in block b is the value at the loop header when control passes the edge target t"""
+            if b in reach_v(body, [t], stop={H}): return H in reach_v(body, [b], stop=others) or b == H
+            return t in reach_v(body, [b], stop=others | {H}) and H in reach_v(body, [t], stop=others)
         some_ok = none_ok = False; rest = []
         for x, bi in entries:
-            n = peel(x)
+            n = peel(x); others = {b for y, b in entries if b != bi}
             if n == ('const', '0f64'):
-                if any(bi in reach_v(body, [nn], stop={Lp[1]}) and bi not in reach_v(body, [sm], stop={Lp[1]}) for sb, sm, nn in tests):
+                if any(in_force(bi, nn, others) and not in_force(bi, sm, others) for sb, sm, nn in tests):
                     none_ok = True
                     # an absent linear part is not an error
-                    ctx.check(bool(reach_v(body, [bi]) & body.strict_ok_exits()), R + '.linear-none/ok', 'T-GUARD', fn, 'absent linear part leads to an error', body.site(bi))
+                    ctx.check(any(bool(reach_v(body, [nn]) & body.strict_ok_exits()) for sb, sm, nn in tests), R + '.linear-none/ok', 'T-GUARD', fn, 'absent linear part leads to an error', body.site(bi))
                     continue
             if n[0] == 'proj' and n[1][0] == 'call' and n[1][1] == 'evaluate' and 'v1::Linear as evaluate::Evaluate' in n[1][2]:
                 ev = n[1]
                 if [f for a, f in n[2] if a == 'tuple'] == ['0'] and ('v1::Quadratic', 'linear') in T.expr_fields(ev[3][0]) and peel(ev[3][1]) == ('place', 2, []) \
-                        and any(ev[4] in reach_v(body, [sm], stop={Lp[1]}) and ev[4] not in reach_v(body, [nn], stop={Lp[1]}) for sb, sm, nn in tests):
+                        and any(ev[4] in reach_v(body, [sm], stop={H}) and ev[4] not in reach_v(body, [nn], stop={H}) and in_force(bi, sm, others) and not in_force(bi, nn, others) for sb, sm, nn in tests):
                     some_ok = True; continue
             rest.append(x)
         init_ok = some_ok and none_ok and not rest
